@@ -102,6 +102,10 @@ class C02(common.Spec):
                 kw['on_every_output'] = as_arg(on_every, case['form'])
                 if kind == 'input':
                     snd = edzed.Input('snd', initdef=values[0], **kw)
+                elif kind == 'inputexp':
+                    # a sender built on the FSM: every accepted 'put' re-enters the state 'valid' and
+                    # assigns the output, changed or not
+                    snd = edzed.InputExp('snd', initdef=values[0], duration=1000.0, expired='EXP', **kw)
                 else:
                     snd = Setter('snd', **kw)
                 drv = snd
@@ -171,6 +175,9 @@ class C02(common.Spec):
                 if out_then is not data['value']:
                     ident = False       # delivered before the sender's output was the new value
                 prev_val = data['value']
+        if case['sender'] != 'cblock' and len(assigns) < len(values):
+            # every value given to a sequential sender is an output assignment ("changed or not")
+            stray += len(values) - len(assigns)
         return dict(assigns=assigns, groups=groups, stray=stray, final=res.value, identity=ident)
 
     def emit(self, case, obs):
@@ -219,7 +226,7 @@ def gen_cases(run):
     cases = []
     n = 700 if run.tier == 'quick' else 18000
     for _ in range(n):
-        sender = rng.choice(['input', 'probe', 'cblock'])
+        sender = rng.choice(['input', 'probe', 'cblock', 'inputexp'])
         values = [rng.choice(POOL) for _ in range(rng.choice([1, 2, 3, 5, 8, 12, 20]))]
         if rng.random() < 0.5:      # runs of equal-but-not-identical values
             grp = rng.choice([POOL[0:3], POOL[3:6]])
